@@ -541,6 +541,12 @@ def ite(c, a, b, lift_strings: bool = True):
                 val = ite(c, sa.value, sb.value)
             out.slots[k] = Slot(z3.simplify(pres), val)
         return out
+    if type(a).__name__ == 'MList' and type(b).__name__ == 'MList':
+        # (xs if c else ys) as a sequence: the elements of xs under c followed by those of ys under not c
+        from vc.pyvc import interp as _I
+        cz = z_bool(c)
+        return _I.MList(nodes=[_I._with_guard(n, cz) for n in a.nodes] +
+                              [_I._with_guard(n, z3.Not(cz)) for n in b.nodes])
     if isinstance(a, SRec) and b is None:
         return SOptRec(z_bool(c), a)
     if isinstance(b, SRec) and a is None:
